@@ -263,6 +263,27 @@ def check(ctx, replay=None):
             ctx.violation(f"corr:{c['payload'] == 'disable' and 'disable' or 'rename'}:{c['place']}",
                           {"canary": c, "backend": b, "broken": "correspondence goal " + goals[f][:400] +
                            " (Cfg/Model.v + gen/Tables.v no longer describe the implementation); the direct check found no item with a wrong presence"}, False)
+    # the historical backend names with a trailing 2 (c2, cpp2, js2, ...) select the same backend: conditions naming the backend
+    # must hold under the alias exactly as under the plain name, i.e. the whole canary bridge generates identically
+    for b in ["c", "cpp", "js"] + ([] if ctx.quick() else ["dart", "kotlin", "nanobind", "demo_gen"]):
+        if ("attr", b) not in outs:
+            continue
+        o2 = os.path.join(d, f"out_attr_{b}2")
+        q = e2e.run_tool(b + "2", srcs["attr"], o2, config=CFG)
+        if q.returncode != 0:
+            violate(f"direct:alias:{b}", {"backend": b, "what": f"diplomat-tool {b}2 fails where {b} succeeds: {q.stderr[-400:]}"})
+        else:
+            cmpd = filecmp.dircmp(outs[("attr", b)], o2)
+            def differing(c, pre=""):
+                out = [pre + x for x in c.diff_files + c.left_only + c.right_only]
+                for n, sub in c.subdirs.items():
+                    out += differing(sub, pre + n + "/")
+                return out
+            dd = differing(cmpd)
+            if dd:
+                violate(f"direct:alias:{b}", {"backend": b, "what": f"`{b}2` and `{b}` are the same backend, but the canary bridge (attributes conditioned on backend names, "
+                                              f"supports= flags, not/any/all) generates differently under the alias: {dd[:6]}"})
+        shutil.rmtree(o2, ignore_errors=True)
     for tag in ("base", "attr"):
         for b in BACKENDS:
             shutil.rmtree(os.path.join(d, f"out_{tag}_{b}"), ignore_errors=True)
